@@ -31,6 +31,9 @@ type config struct {
 	Imports map[string]map[string]string `json:"imports"`
 	// NoTypes: skip type checking (range/len/cap over channels then must not occur)
 	NoTypes bool `json:"notypes"`
+	// OnlyImports: no channel rewriting at all, just the import swaps (sequential harnesses
+	// that only need the virtual clock); files without a swapped import are left alone
+	OnlyImports bool `json:"only_imports"`
 }
 
 func die(format string, a ...any) {
@@ -106,7 +109,7 @@ func main() {
 		die("no go files in %s", *dir)
 	}
 	info := &types.Info{Types: map[ast.Expr]types.TypeAndValue{}, Uses: map[*ast.Ident]types.Object{}, Defs: map[*ast.Ident]types.Object{}}
-	if !cfg.NoTypes {
+	if !cfg.NoTypes && !cfg.OnlyImports {
 		conf := types.Config{Importer: importer.ForCompiler(fset, "source", nil), Error: func(err error) {}}
 		// errors are tolerated here (the compiler is the judge of the rewritten code); we
 		// only need the types of range / len / cap operands.
@@ -125,8 +128,14 @@ func main() {
 				}
 			}
 		}
-		f.Comments = nil
-		rw.rewriteFile(f, cfg, !cfg.NoTypes)
+		if cfg.OnlyImports {
+			if !rw.swapImports(f, cfg) {
+				continue
+			}
+		} else {
+			f.Comments = nil
+			rw.rewriteFile(f, cfg, !cfg.NoTypes)
+		}
 		outp := filepath.Join(*out, names[i])
 		w, err := os.Create(outp)
 		if err != nil {
@@ -285,7 +294,15 @@ func (rw *rewriter) rewriteFile(f *ast.File, cfg config, typed bool) {
 		}
 		return true
 	})
-	// imports
+	rw.swapImports(f, cfg)
+	if rw.usedMc {
+		imp := &ast.GenDecl{Tok: token.IMPORT, Specs: []ast.Spec{&ast.ImportSpec{Name: ast.NewIdent("verifmc"), Path: &ast.BasicLit{Kind: token.STRING, Value: strconv.Quote(mcPath)}}}}
+		f.Decls = append([]ast.Decl{imp}, f.Decls...)
+	}
+}
+
+func (rw *rewriter) swapImports(f *ast.File, cfg config) bool {
+	changed := false
 	repl := map[string]string{}
 	for k, v := range cfg.Imports["*"] {
 		repl[k] = v
@@ -306,13 +323,11 @@ func (rw *rewriter) rewriteFile(f *ast.File, cfg config, typed bool) {
 					is.Name = ast.NewIdent(filepath.Base(p))
 				}
 				is.Path.Value = strconv.Quote(np)
+				changed = true
 			}
 		}
 	}
-	if rw.usedMc {
-		imp := &ast.GenDecl{Tok: token.IMPORT, Specs: []ast.Spec{&ast.ImportSpec{Name: ast.NewIdent("verifmc"), Path: &ast.BasicLit{Kind: token.STRING, Value: strconv.Quote(mcPath)}}}}
-		f.Decls = append([]ast.Decl{imp}, f.Decls...)
-	}
+	return changed
 }
 
 // loopIsStateless: no statement of the loop body assigns to a plain identifier declared
